@@ -184,6 +184,12 @@ def run_c10_source(ctx: Ctx, M: AnnotateModel):
             kw = {k.arg: (k.value.value if isinstance(k.value, ast.Constant) else norm(k.value)) for k in calls[0].keywords}
             okc = kw.get("timelimit") == 0 and kw.get("checklines") is False and kw.get("cleanup") == "No" and \
                 [norm(a) for a in calls[0].args] == [gd.args.args[0].arg, gd.args.args[1].arg]
+        rets_ = [r_ for r_ in walk_local(gd) if isinstance(r_, ast.Return)]
+        direct_ = bool(calls) and all(r_.value is calls[0] for r_ in rets_) and bool(rets_) and not any(isinstance(y_, (ast.Yield, ast.YieldFrom)) for y_ in walk_local(gd))
+        ctx.ob("C10-R5", "annotate.SpanUpdater.get_diff_steps/returns-the-library-diff", direct_,
+               "every result of the default step provider is the library's diff of (a, b) itself (returns: "
+               f"{[norm(r_.value)[:50] if r_.value is not None else None for r_ in rets_]}): steps stitched together from diffs of pieces are a diff only if the cut "
+               "points correspond, which is a claim about the texts", node=next((r_ for r_ in rets_ if not calls or r_.value is not calls[0]), gd), mod=m)
         ctx.ob("C10-R5", "annotate.SpanUpdater.get_diff_steps/minimal-char-diff", okc,
                "the diff must be the minimal character diff of (a, b): no time limit, no line-mode pre-pass, no clean-up "
                f"(keywords {kw})", node=calls[0] if calls else gd, mod=m)
